@@ -26,6 +26,19 @@ Theorem C07_leftmost : forall s l ds body r, pf_search s = Some (l, ds, body, r)
 Proof. exact pf_search_leftmost. Qed.
 Print Assumptions C07_leftmost.
 
+(* completeness of the search: the value is rejected as a whole iff it contains no declaration of the shape at all, or the
+   expression text of the leftmost one is not a plural expression (with the digit limit lifted, as generated) *)
+Theorem C07_no_match_iff_no_declaration : forall s, pf_search s = None <-> forall l ds body r, ~ pf_shape s l ds body r.
+Proof. exact pf_search_none_iff. Qed.
+Print Assumptions C07_no_match_iff_no_declaration.
+
+Theorem C07_syntax_error_characterised : forall maxd s, maxd = 0%N ->
+  (parse_plural_forms maxd s = Err PFSyntax <->
+   (forall l ds body r, ~ pf_shape s l ds body r) \/
+   (exists l ds body r, pf_search s = Some (l, ds, body, r) /\ parse_string maxd body = Err SynErr)).
+Proof. exact syntax_error_characterised. Qed.
+Print Assumptions C07_syntax_error_characterised.
+
 (* leading/trailing junk tags carry exactly the text around the declaration *)
 Theorem C07_junk : forall maxd inp ds pre n e l r,
   check_plurals_core maxd inp = Ok (ds, pre) ->
